@@ -13,6 +13,33 @@ WH_NOTE = ("trusted: Coq 8.16.1 kernel (no axioms: Print Assumptions is 'Closed 
            "execution; Vec/VecDeque/hashbrown/serde modelled by contract; archetype-table order is an oracle input")
 
 CLAIMED = {
+    "C07": dict(engine="schedules", note="SCHED_NOTE",
+                text="Proved over the scheduling model (stager + Stage::run/run_add_ons/Stages::run with has_run flags, tables regenerated "
+                     "from the source): every accepted schedule runs every task exactly once and never hits a failing unchecked "
+                     "merge; tasks that are not compatible on the world execute in declared order in every linearisation of the "
+                     "fork/join term; hence for any task semantics in which compatible tasks commute every admissible order "
+                     "equals the sequential run. PARTIAL: tasks are atomic in the model (no instruction-level interleavings). "
+                     "Fork/join terms of real runs (hook H2, deterministic orders and real pools) equal the model's; final "
+                     "world/resources/system state compared with sequential run_system on a clone.",
+                technique="Rocq proof over a series-parallel run model (invariants of the claims map, linearisation + commutation) + shim-recorded fork/join correspondence",
+                ref="DESIGN.md §7 C07"),
+    "C08": dict(engine="schedules", note="SCHED_NOTE",
+                text="Proved: two tasks under the two sides of one join of any run have no shared write on any archetype present "
+                     "or any resource (the run-time claims test is proved to be exactly the absence of a shared write; the static "
+                     "Verifier/Merger decision is proved sound on every world; table rows checked by computation on the regenerated "
+                     "tables). The statement is about the fork/join structure, so all interleavings are covered at once. "
+                     "Harness systems record every address they can reach; join-parallel pairs are intersected.",
+                technique="Rocq proof on the fork/join structure (claims-map upper/least-upper-bound invariants) + recorded reachable addresses of join-parallel tasks",
+                ref="DESIGN.md §7 C08"),
+    "C12": dict(engine="schedules", note="SCHED_NOTE",
+                text="Proved: verify says Cut exactly when declared views conflict (table is the conflict relation, not "
+                     "over-conservative); the stager is the greedy in-order grouping (consecutive non-empty blocks, cut only at a "
+                     "task that conflicts with the stage being closed); stage-mates that run in their own stage are pairwise "
+                     "under a common join; on a world without archetypes all stage-mates are; run_schedule is total (finite "
+                     "fork/join term). PARTIAL: completion on a given pool relies on rayon's join contract; real pools 1 and 4 "
+                     "are run under a cap.",
+                technique="Rocq proof of exactness of the regenerated Verifier table and greediness of the stager + shim trees on static staging, pools 1..16 under a cap",
+                ref="DESIGN.md §7 C12"),
     "C01": dict(engine="world-histories",
                 text="Refinement proved for every operation from every Inv world: step w o does to the identifier->component-vector "
                      "map exactly what the reference map does (feq fixes the value at every identifier, so no other entity changes), "
@@ -63,6 +90,11 @@ CLAIMED = {
                 ref="DESIGN.md §7 C16"),
 }
 
+SCHED_NOTE = ("trusted: Coq 8.16.1 kernel (no axioms), tools/translate.py (decision tables regenerated from the Rust source into "
+              "coq/Gen/Tables.v on every run; vm_compute over the finite kind domains), in-Coq evaluation of the model (coqc, "
+              "vm_compute) for the correspondence, Rust schedule harness + hook H2 (fork/join shim shadowing rayon in stage.rs), "
+              "lib/sched.py; rayon join/bridge, hashbrown and rustc's trait solver modelled by contract; tasks atomic")
+
 NA_REASON = "check under construction in this round (not yet registered); see DESIGN.md §7"
 
 
@@ -85,7 +117,7 @@ def main():
             "replay_cmd_template": "./check %s --replay {path}" % pid,
             "engine": c["engine"],
             "level_claimed": {"category": "proof", "text": c["text"], "design_ref": c["ref"]},
-            "level_note": c.get("note", WH_NOTE),
+            "level_note": SCHED_NOTE if c.get("note") == "SCHED_NOTE" else c.get("note", WH_NOTE),
             "technique": c["technique"],
         })
     engines = [
@@ -94,6 +126,10 @@ def main():
          "kind_free_text": "random+corpus operation histories run on the real library (harness/src/bin/wh.rs) and on the "
                            "extracted Gallina model (extract/wh_driver.ml), compared step by step; spec-side oracles "
                            "(reference map, structural invariant, ledger, equality, independence) on the implementation trace"},
+        {"name": "schedules", "path": "lib/sched.py", "serves_properties": ["C07", "C08", "C12"],
+         "kind_free_text": "generated schedule family (one binary per schedule type) run through the fork/join shim in "
+                           "deterministic orders and on real rayon pools; fork/join terms compared with the Gallina model "
+                           "evaluated in Coq on the regenerated tables; sequential-reference, reachable-address and greedy-grouping oracles"},
     ]
     m = {"version": 1,
          "setup_cmd": "./setup.sh",
